@@ -91,6 +91,24 @@ def case_hash(case):
 
 
 # ----------------------------------------------------------------------------- worker side
+def _relieve_memory_maps(limit=30000):
+    """every compiled XLA executable holds several memory mappings; a worker that runs hundreds of differently shaped cases can reach
+    vm.max_map_count (65530 here), after which LLVM dies with "Cannot allocate memory" (rc -11) although RAM is free: drop the jit caches
+    when the count gets high (costs recompilation, never correctness)"""
+    try:
+        with open("/proc/self/maps") as f:
+            n = sum(1 for _ in f)
+        if n > limit:
+            import gc
+
+            import jax
+
+            jax.clear_caches()
+            gc.collect()
+    except Exception:
+        pass
+
+
 def worker_main(check_id, infile, outfile):
     from vlib import env
 
@@ -101,6 +119,10 @@ def worker_main(check_id, infile, outfile):
     t0 = time.time()
     for case in cases:
         t1 = time.time()
+        crash = os.environ.get("VERIF_TEST_CRASH")   # self-test of the retry path: "<case idx>:<marker file>" kills this worker once
+        if crash and str(case.get("idx")) == crash.split(":")[0] and not os.path.exists(crash.split(":")[1]):
+            open(crash.split(":")[1], "w").close()
+            os.kill(os.getpid(), 11)
         try:
             res = mod.run_case(case)
         except Exception as exc:  # harness or library raised where the check did not expect it
@@ -123,6 +145,7 @@ def worker_main(check_id, infile, outfile):
         res["case"] = case
         res["wall"] = time.time() - t1
         out.append(_jsonable(res))
+        _relieve_memory_maps()
         # incremental flush so a later crash / time-out keeps what was decided
         with open(outfile + ".tmp", "w") as f:
             json.dump(out, f)
@@ -182,6 +205,28 @@ def run_workers(check_id, cases, timeout, nworkers=None):
                 got = json.load(open(fout))
             except Exception:
                 got = []
+        # a worker killed by the OS / LLVM (not by the watchdog) is re-started once on the cases it did not finish: resource exhaustion in
+        # the harness process is not a verdict about the code under test
+        if len(got) < len(part) and p.returncode not in (0, None) and time.time() < deadline - 30 and not os.environ.get("VERIF_NO_RETRY"):
+            done = {json.dumps(r.get("case"), sort_keys=True) for r in got}
+            rest = [c for c in part if json.dumps(c, sort_keys=True) not in done]
+            # the case the worker died on goes last (if it is that case's fault the retry dies at the end, having decided the others)
+            rest = rest[1:] + rest[:1]
+            fin2, fout2 = fout + ".retry.in", fout + ".retry.out"
+            json.dump(rest, open(fin2, "w"))
+            p2 = subprocess.Popen(["/venv/bin/python", "-m", "vlib.worker", check_id, fin2, fout2], cwd=tmp, env=env,
+                                  stdout=open(flog + ".retry", "w"), stderr=subprocess.STDOUT)
+            try:
+                p2.wait(timeout=max(1.0, deadline - time.time()))
+            except subprocess.TimeoutExpired:
+                p2.kill()
+                p2.wait()
+            if os.path.exists(fout2):
+                try:
+                    got = got + json.load(open(fout2))
+                except Exception:
+                    pass
+            p = p2
         results.extend(got)
         if len(got) < len(part):
             tail = ""
